@@ -23,13 +23,21 @@ def main():
                   "simulator": bioscrape.simulator.__file__, "build_dir": os.environ.get("VERIF_BUILD_DIR")}})
     if hasattr(mon, "child_setup"):
         mon.child_setup()
+    import faulthandler
+    case_timeout = batch.get("case_timeout")
     for idx, case in batch["cases"]:
         emit({"i": idx, "start": True})
         t0 = time.time()
+        if case_timeout:
+            # per-case watchdog: fires from faulthandler's own thread even when the main thread is stuck inside the
+            # extension (an explosive network never returns); the parent recognises the "Timeout (" marker
+            faulthandler.dump_traceback_later(case_timeout, exit=True)
         try:
             rec = mon.run_case(case)
         except BaseException as e:  # harness error or something bioscrape raised that the monitor did not expect
             rec = {"error": "".join(traceback.format_exception(type(e), e, e.__traceback__))[-4000:]}
+        if case_timeout:
+            faulthandler.cancel_dump_traceback_later()
         rec["wall"] = round(time.time() - t0, 4)
         emit({"i": idx, "rec": rec})
     emit({"done": True})
